@@ -139,6 +139,7 @@ type Machine struct {
 	onces   map[*Value]bool
 	aborted bool
 	inInit  bool
+	settling bool
 	doneCh  chan struct{}
 
 	quiesceWaiter *goroutine
